@@ -14,7 +14,7 @@ for mp in sorted(glob.glob(os.path.join(V, "seeded", "*", "meta.json"))):
         lines = [l.strip("# *-").strip() for l in notes.splitlines() if l.strip() and not l.startswith("```")]
         idea = (lines[0] if lines else "")[:160]
     rows.append((d, m.get("property"), ", ".join(files), idea.replace("|", "/"), m.get("detected_first_run"), m.get("detected_now"),
-                 (m.get("detected_by") or "").replace("|", "/")[:220]))
+                 (m.get("detected_by_now") or m.get("detected_by") or "").replace("|", "/")[:220], bool(m.get("superseded"))))
 out = ["# Seeded breaking changes", "",
        "Each directory holds `patch.diff` (against /repo HEAD at the time), the sub-agent's demonstration (`demo.cpp`/`demo.sh`), `notes.md`",
        "(what it breaks, what it needs in order to manifest, commands run) and `meta.json`.  All were produced by independent sub-agents that saw only",
@@ -23,9 +23,9 @@ out = ["# Seeded breaking changes", "",
        "first run = result of the check as it was when the change was produced; now = result of the current check.", "",
        "| case | files | idea | first run | now | detected by |", "|---|---|---|---|---|---|"]
 for r in rows:
-    out.append("| %s | %s | %s | %s | %s | %s |" % (r[0], r[2], r[3], "caught" if r[4] else "MISSED", "caught" if r[5] else ("MISSED" if r[5] is False else "?"), r[6]))
+    out.append("| %s | %s | %s | %s | %s | %s |" % (r[0], r[2], r[3], "caught" if r[4] else "MISSED", "no longer a violation (neutralised by a later fix commit, see meta.json)" if r[7] else ("caught" if r[5] else ("MISSED" if r[5] is False else "?")), r[6]))
 n = len(rows)
-out += ["", "Totals: %d cases; caught at first run %d; caught by the current checks %d." % (
-    n, sum(1 for r in rows if r[4]), sum(1 for r in rows if r[5]))]
+out += ["", "Totals: %d cases; caught at first run %d; caught by the current checks %d; neutralised by later fix commits %d." % (
+    n, sum(1 for r in rows if r[4]), sum(1 for r in rows if r[5]), sum(1 for r in rows if r[7]))]
 open(os.path.join(V, "seeded", "README.md"), "w").write("\n".join(out) + "\n")
 print(out[-1])
